@@ -127,12 +127,41 @@ func (s *Seq) guardScenario(r *simrt.Rand, extra map[string]int) string {
 	s.curOp = &Op{K: "guard"}
 	// (1) re-create with changed constraints / extension on the live handle
 	tag := "guard"
+	// the flusher is kept out of the way while the directory is compared (it finishes
+	// what it is doing first); on asynchronous collections a write is pending meanwhile,
+	// which a refused Create must neither lose nor flush
+	s.W.Settle()
+	s.W.Exclusive(true)
+	if s.Cfg.Async {
+		tmp := s.M.CopyState()
+		for try := 0; try < 10; try++ {
+			x := GenRec(r, s.Pools, false)
+			lid := 7000 + try
+			x.Lid = lid
+			tmp.Canon(x)
+			if !model.Valid(x) || len(tmp.Conflicts(x, lid)) > 0 {
+				continue
+			}
+			o := model.Clone(x)
+			o.Initialize("")
+			o.Lid = lid
+			if err := s.db.InsertOrUpdate(o); err != nil {
+				s.fail("read", "legit-write-rejected", "guard: insert of a valid object failed: %v", err)
+			}
+			x.Initialize(o.UUID())
+			s.modelPut(lid, x)
+			s.stat("probe:refused-create-with-pending-write")
+			break
+		}
+	}
 	before := s.W.FS.Hash(s.Root)
 	s.W.FS.ROnly = true
 	s.W.FS.Mutations = 0
-	// wait for the flusher to be idle: nothing is pending after the final reopen
 	c2 := *s.Cfg
 	c2.Ext = s.Cfg.Ext + "x"
+	if r.Bool() {
+		c2.Async, c2.OffStruct = false, r.Bool() // the refused schema may also ask for other settings
+	}
 	err := s.db.Create(rec0(), c2.Schema())
 	if !errors.Is(err, sod.ErrExtensionMismatch) {
 		s.fail(tag, "extension-change-not-refused", "Create with extension %q on a collection created with %q returns %v", c2.Ext, s.Cfg.Ext, err)
@@ -162,6 +191,10 @@ func (s *Seq) guardScenario(r *simrt.Rand, extra map[string]int) string {
 		}
 	}
 	c3.Cons[path] = k
+	if r.Bool() {
+		c3.Async, c3.OffStruct = false, r.Bool()
+		c3.Cache = !c3.Cache
+	}
 	err = s.db.Create(rec0(), c3.Schema())
 	if !errors.Is(err, sod.ErrFieldDescModif) {
 		s.fail(tag, "constraint-change-not-refused", "Create with other constraints on %s (%+v instead of %+v) returns %v", path, k, s.Cfg.Cons[path], err)
@@ -170,7 +203,14 @@ func (s *Seq) guardScenario(r *simrt.Rand, extra map[string]int) string {
 		s.fail(tag, "refused-create-modified-files", "a refused Create modified the directory (%d file mutations)", s.W.FS.Mutations)
 	}
 	s.W.FS.ROnly = false
+	s.W.Exclusive(false)
 	s.stat("probe:refused-create")
+	if s.Cfg.Async {
+		// the pending write is still there: it reaches the disk with the next flush
+		if err := s.db.FlushAllAndCommit(rec0()); err != nil {
+			s.fail(tag, "flush-after-refused-create-failed", "FlushAllAndCommit after refused Create calls: %v", err)
+		}
+	}
 	// the handle keeps working with the stored schema
 	if v := s.subCheck(s.db, s.M, r.Uint64(), 3, "after-refused-create", true); v != nil {
 		s.fail(tag, "state-changed-by-refused-create:"+v.Sig, "after refused Create calls: %s", v.Msg)
